@@ -152,6 +152,28 @@ theorem textinput_cells_fit {G : Type} (width : G → Int) (hw : ∀ g, 0 ≤ wi
   have := promptLoop_col width winW prompt 0 col hp
   omega
 
+/-- Whatever the window width (also when the line does not fit): after `Draw` the scroll offset is
+between 0 and the cursor — the view is never scrolled past the cursor (the F47 loop guard and the
+"scroll toward beginning" adjustment), so the grapheme behind the cursor is never left of the view. -/
+theorem textinput_draw_offset_bounds {G : Type} (width : G → Int) (m : TextInput.TI G) (prompt : List G) (winW : Int)
+    (h : TIInv m) (m' : TextInput.TI G) (c : Int) (hd : TextInput.draw width m prompt winW = .shown m' c) :
+    0 ≤ m'.offset ∧ m'.offset ≤ m.cursor ∧ tiAbs m' = tiAbs m :=
+  ⟨(draw_offset_le_cursor width m prompt winW h m' c hd).1, (draw_offset_le_cursor width m prompt winW h m' c hd).2,
+   (draw_keeps width m prompt winW h m' c (Or.inl hd)).2⟩
+
+/-- Non-vacuity: 8 one-column graphemes, cursor at the end, 8 columns: offset 4. -/
+example :
+    (match TextInput.draw (fun _ : Nat => 1) (TextInput.setContent TextInput.new [0, 1, 2, 3, 4, 5, 6, 7]) [] 8 with
+     | .shown m' _ => m'.offset | _ => -1) = 4 := by decide
+
+/-- For every window width, scroll state and prompt (also when the line does not fit, also when the
+prompt fills the window): every cell `Draw` writes lies inside its window, columns `0 … winW - 1`. -/
+theorem textinput_cells_in_window {G : Type} (width : G → Int) (hw : ∀ g, 0 ≤ width g) (masked : Bool)
+    (m : TextInput.TI G) (prompt : List G) (winW : Int) (hpos : 0 < winW) (cells : List (Int × TextInput.Glyph G))
+    (hd : TextInput.drawCells width masked m prompt winW = some cells) :
+    ∀ x ∈ cells, 0 ≤ x.1 ∧ x.1 < winW :=
+  drawCells_in_window width hw masked m prompt winW hpos cells hd
+
 /-- The `k`-th cell of a laid-out list sits at the start column plus the display width of the `k`
 graphemes before it. -/
 theorem textinput_cells_columns {G : Type} (width : G → Int) (f : G → TextInput.Glyph G) (l : List G) (c : Int) (k : Nat) :
